@@ -400,7 +400,7 @@ func c09RunBatch(c *Ctx, r *rng.R, b *run.Batch, cases []*PCase) {
 					c.Ev.Count("recovered_parses_with_consistent_yield", 1)
 				}
 			}
-			if k == 0 && i%8 == 0 {
+			if c.Ev.WantSample() && len(w) >= 3 {
 				c.Ev.Sample(map[string]any{"lox": pc.Lox, "input": tokString(pc.G, w), "verdict": v, "reads": pr.Reads, "errors_delivered": pr.NErr})
 			}
 		}
